@@ -141,7 +141,8 @@ Fixpoint loop_margin (fuel : nat) (g : grid) (q : quad) (cur : qref) : Q :=
                         let g' := merge_quads g h qm in
                         match nth_error (g_planes g') h, deref g' q cur with
                         | Some hq', Some qm' =>
-                            let moved := quad_margin hq' in
+                            (* the footprint of the hit plane is recomputed BEFORE and after the blend *)
+                            let moved := Qmin (quad_margin hq) (quad_margin hq') in
                             if veq_bool (qc hq') (qc qm') then Qmin here moved
                             else
                               let d := Qmax (Qabs (vx (qc hq') - vx (qc qm')))
